@@ -264,6 +264,9 @@ const (
 	backquoteMarker  = marker('b')
 	commaMarker      = marker(',')
 	commaAtMarker    = marker('@')
+	// dotMarker is what a bare . token becomes until the enclosing list is
+	// closed so that it can be told apart from the symbol |.|.
+	dotMarker = marker('.')
 )
 
 var (
@@ -385,6 +388,7 @@ type reader struct {
 	base       int // temp base
 	rbase      int // read base
 	sharpNum   int
+	dots       int // bare . tokens not yet resolved
 	code       Code
 	rb         []byte
 	rn         rune
@@ -882,17 +886,30 @@ func (r *reader) closeList() {
 	copy(list, r.stack[start+1:])
 	// TBD does the stack need to be cleared (set to nil) before shrinking?
 	r.stack = r.stack[:start+1]
+	if 0 < r.dots {
+		// A bare dot is the dotted pair marker only as the second to last
+		// element of a list, any other is the symbol it always has been.
+		for i, v := range list {
+			if v == dotMarker && (i != len(list)-2 || len(list) < 3) {
+				list[i] = Symbol(".")
+				r.dots--
+			}
+		}
+	}
 	var obj Object
 	switch to := r.stack[start].(type) {
 	case *Vector:
+		r.undot(list)
 		obj = NewVector(len(list), TrueSymbol, nil, list, true)
 	case *Array:
+		r.undot(list)
 		to.calcAndSet(list)
 		obj = to
 	case Complex:
+		r.undot(list)
 		obj = newComplex(list)
 	default:
-		if 3 <= len(list) && list[len(list)-2] == Symbol(".") {
+		if 3 <= len(list) && list[len(list)-2] == dotMarker {
 			if list[len(list)-1] == nil {
 				list[len(list)-2] = nil
 			} else {
@@ -900,6 +917,7 @@ func (r *reader) closeList() {
 			}
 			list = list[:len(list)-1]
 			obj = list
+			r.dots--
 		} else {
 			obj = list
 		}
@@ -910,6 +928,15 @@ func (r *reader) closeList() {
 	r.stack = r.stack[:start]
 	r.starts = r.starts[:len(r.starts)-1]
 	r.pushObject(obj)
+}
+
+// undot replaces a dot marker left as the second to last element of
+// something other than a list.
+func (r *reader) undot(list List) {
+	if 0 < r.dots && 3 <= len(list) && list[len(list)-2] == dotMarker {
+		list[len(list)-2] = Symbol(".")
+		r.dots--
+	}
 }
 
 // pushObject applies any pending quote, function, backquote, comma, or
@@ -972,6 +999,13 @@ func (r *reader) pushToken(src []byte) {
 	if size == 3 && bytes.EqualFold([]byte("nil"), token) {
 		obj = nil
 		goto Push
+	}
+	if size == 1 && token[0] == '.' && 0 < len(r.starts) {
+		if top, quoted := r.stack[len(r.stack)-1].(marker); !quoted || top == dotMarker {
+			r.dots++
+			obj = dotMarker
+			goto Push
+		}
 	}
 	obj = r.resolveToken(token)
 Push:
